@@ -5,7 +5,7 @@
 From Coq Require Import String List NArith ZArith Bool.
 From J5V.lib Require Import Text Outcome.
 From J5V.model Require Import BclLexer BclParser BclFmt.
-From J5V.proofs Require Import BclUtf8Proofs BclRuneClosedProofs BclFmtBytesProofs BclFmtIdemProofs BclFmtRoundProofs BclDocProofs.
+From J5V.proofs Require Import BclUtf8Proofs BclRuneClosedProofs BclFmtBytesProofs BclFmtIdemProofs BclFmtRoundProofs BclDocProofs BclFmtProofs BclFmtFullProofs.
 From J5V.model Require Import BclDoc.
 Import ListNotations.
 
@@ -43,4 +43,14 @@ Theorem fmt_bytes_output_utf8 : forall input outb, fmt_bytes input = Ok outb ->
 Proof.
   intros input outb H. destruct (fmt_bytes_runes input outb H) as (out & Hf & He & Hd).
   rewrite Hd. symmetry. exact He.
+Qed.
+
+(* C09 and C19 together: on the formatter's own output the edit list is computed, well-formed, and applying
+   it leaves the text as it is (up to trailing blank lines): an editor reaches a fixed point after one format *)
+Theorem fmt_diffs_of_output_stable : forall input out, fmt_bytes input = Ok out ->
+  exists es, fmt_diffs out = Ok es /\
+    edits_wf (Z.of_nat (length (split_on 10 out))) 0%Z es /\
+    strip_trailing_blank (apply_edits (split_on 10 out) 0%Z es) = strip_trailing_blank (split_on 10 out).
+Proof.
+  intros input out H. exact (fmt_diffs_full out out (fmt_bytes_idempotent input out H)).
 Qed.
